@@ -343,13 +343,13 @@ def validate(w):
 
 # ------------------------------------------------------------------ job lists
 def tour_shapes(tier):
-    acts = ['S', 'SS'] if tier == 'quick' else ['S', 'SS', 'SM', 'MS', 'SSS', 'SMS', 'SSSS']
+    acts = ['S', 'SS', 'SM'] if tier == 'quick' else ['S', 'SS', 'SM', 'MS', 'SSS', 'SMS', 'SSSS']
     out = []
     for a in acts:
         out.append(dict(acts=list(a)))
         if 'M' not in a: out.append(dict(acts=list(a), dummy=True))
     out.append(dict(acts=['S'], sd='overflow', ed='real')); out.append(dict(acts=['S'], sd='real', ed='overflow'))
-    if tier == 'quick': out.append(dict(acts=['M', 'S'])); out.append(dict(acts=['S', 'S', 'S'], remove_only=True)); out.append(dict(acts=['S', 'S', 'S'], dummy=True, remove_only=True))
+    if tier == 'quick': out.append(dict(acts=['S', 'S'], sd='overflow', ed='overflow')); out.append(dict(acts=['M', 'S'])); out.append(dict(acts=['S', 'S', 'S'], remove_only=True)); out.append(dict(acts=['S', 'S', 'S'], dummy=True, remove_only=True))
     if tier == 'thorough':
         out.append(dict(acts=['S', 'S'], sd='overflow', ed='overflow')); out.append(dict(acts=['S', 'M'], sd='overflow', ed='real'))
     return out
